@@ -29,6 +29,8 @@ const (
 	repoModule = "github.com/markkurossi/mpc"
 	rtPath     = "verifsim/sim/rt"
 	rtName     = "simrt"
+	pipePath   = "verifsim/sim/simpipe"
+	pipeName   = "vsimpipe"
 )
 
 var importSubst = map[string]string{
@@ -274,6 +276,7 @@ func rewritePkg(opt Options, fset *token.FileSet, imp types.Importer, p *listPkg
 	}
 	info := &types.Info{
 		Types: map[ast.Expr]types.TypeAndValue{},
+		Uses:  map[*ast.Ident]types.Object{},
 	}
 	conf := types.Config{Importer: imp, Error: nil}
 	if _, err := conf.Check(p.ImportPath, fset, files, info); err != nil {
@@ -322,6 +325,56 @@ func (c *fileCtx) rewriteFile(f *ast.File) {
 			}
 			is.Path = &ast.BasicLit{Kind: token.STRING, Value: strconv.Quote(to), ValuePos: is.Path.ValuePos}
 			is.EndPos = 0
+			c.changed = true
+			c.st.Imports++
+		}
+	}
+
+	// 1b. io.Pipe: the synchronous in-memory pipe blocks in the Go runtime; the simulator's
+	// stand-in blocks in the kernel (only these four names of package io are mapped)
+	{
+		pipeNames := map[string]bool{"Pipe": true, "PipeReader": true, "PipeWriter": true, "ErrClosedPipe": true}
+		mapped, other := 0, 0
+		ast.Inspect(f, func(n ast.Node) bool {
+			sel, ok := n.(*ast.SelectorExpr)
+			if !ok {
+				return true
+			}
+			id, ok := sel.X.(*ast.Ident)
+			if !ok {
+				return true
+			}
+			pn, ok := c.info.Uses[id].(*types.PkgName)
+			if !ok || pn.Imported().Path() != "io" {
+				return true
+			}
+			if pipeNames[sel.Sel.Name] {
+				id.Name = pipeName
+				mapped++
+			} else {
+				other++
+			}
+			return true
+		})
+		if mapped > 0 {
+			addImport(f, pipeName, pipePath)
+			if other == 0 {
+				// keep the file's own import of io in use
+				for _, is := range f.Imports {
+					if path, _ := strconv.Unquote(is.Path.Value); path == "io" {
+						name := "io"
+						if is.Name != nil {
+							name = is.Name.Name
+						}
+						if name != "_" && name != "." {
+							f.Decls = append(f.Decls, &ast.GenDecl{Tok: token.VAR, Specs: []ast.Spec{&ast.ValueSpec{
+								Names: []*ast.Ident{ast.NewIdent("_")},
+								Type:  &ast.SelectorExpr{X: ast.NewIdent(name), Sel: ast.NewIdent("Reader")},
+							}}})
+						}
+					}
+				}
+			}
 			c.changed = true
 			c.st.Imports++
 		}
